@@ -358,6 +358,37 @@ def c14_gaussian_energy():
     return _grad_witness("gaussian_energy", np.array([0.3, -0.5, 1.2, 0.8, 0.4]), np.array([-0.2, 0.6, 0.9, 1.4, -0.3]))
 
 
+def c14_diag_det_zero():
+    """both widths zero in one direction: the fall-back branch (`# TODO` upstream) returns mu_1^2 + mu_2^2 with gradient
+    [0, 0, 1, 1]; the returned distance is differentiable in the two location coordinates there, with derivative 2 mu"""
+    import umap.distances as D
+    x, y = np.array([1.0, 2.0, 0.0, 0.0]), np.array([0.0, 1.0, 0.0, 0.0])
+    d, g = D.diagonal_gaussian_energy_grad(x.copy(), y.copy())
+    h = 1e-4
+    fd = []
+    for i in (0, 1):
+        xp, xm = x.copy(), x.copy()
+        xp[i] += h
+        xm[i] -= h
+        fd.append((D.diagonal_gaussian_energy_grad(xp, y.copy())[0] - D.diagonal_gaussian_energy_grad(xm, y.copy())[0]) / (2 * h))
+    ok = abs(float(g[0]) - fd[0]) < 1e-3 and abs(float(g[1]) - fd[1]) < 1e-3
+    return None if ok else f"diagonal_gaussian_energy_grad at det = 0: location gradient {np.asarray(g)[:2].tolist()}, finite differences {np.round(fd, 4).tolist()}"
+
+
+def c03_pynn_sparse_small():
+    """a metric only pynndescent registers (accepted for sparse input) on a small CSR matrix"""
+    import umap
+    X = np.abs(_rng(5).normal(size=(30, 5))).astype(np.float32)
+    try:
+        with warnings.catch_warnings():
+            warnings.simplefilter("ignore")
+            a = umap.UMAP(metric="sqeuclidean", n_neighbors=5, n_epochs=0, init="random", random_state=1).fit(scipy.sparse.csr_matrix(X)).graph_
+            b = umap.UMAP(metric="sqeuclidean", n_neighbors=5, n_epochs=0, init="random", random_state=1).fit(X).graph_
+    except Exception as e:  # noqa
+        return f"fit(CSR, metric='sqeuclidean') raised {type(e).__name__}: {e}"
+    return None if abs(a - b).max() < 1e-5 else "fit(CSR, metric='sqeuclidean') differs from the dense fit"
+
+
 # ---------------------------------------------------------------- C15 / C17 / C19 / C20
 def c15_trivial_missing():
     import umap.spectral as S
@@ -452,6 +483,8 @@ WITNESSES = {
     "C14:correlation_grad": c14_correlation,
     "C14:hellinger_grad": c14_hellinger,
     "C14:hellinger_grad-zero-distance": c14_hellinger_zero,
+    "C14:diagonal_gaussian_energy_grad-det-zero": c14_diag_det_zero,
+    "C03:pynn-only-metric-sparse-small-data": c03_pynn_sparse_small,
     "C14:bray_curtis_grad": c14_braycurtis,
     "C14:symmetric_kl_grad": c14_symmetric_kl,
     "C14:gaussian_energy_grad": c14_gaussian_energy,
